@@ -449,6 +449,12 @@ func init() {
 					emit(f, "stalemate-trick")
 				}
 			}
+			if i%4 == 1 {
+				if f, push := epTrap(r); f != "" {
+					emit(f, "ep-trap")
+					emitFenList(f, []string{push}, "movelist-double-push")
+				}
+			}
 			switch i % 4 {
 			case 0, 1:
 				emit(sparsePlacement(r), "sparse")
@@ -1100,4 +1106,63 @@ func stalemateTrick(r *rng) string {
 		}
 	}
 	return ""
+}
+
+// A double pawn push that can be answered by an en-passant capture, one ply from now: the side to move has a pawn on its second
+// rank with both squares in front empty, an enemy pawn stands on the fourth rank on a neighbouring file (either side), a few
+// other men.  Searched to depth 1-2 the en-passant capture is a first-ply move of quiescence.  Returned as a plain FEN and as
+// "FEN moves <the push>" (the en-passant square then comes from the move-list path).
+func epTrap(r *rng) (string, string) {
+	for tries := 0; tries < 2000; tries++ {
+		cells := map[int]byte{}
+		white := r.chance(1, 2)
+		f := r.intn(8)
+		df := []int{-1, 1}[r.intn(2)]
+		if f+df < 0 || f+df > 7 {
+			continue
+		}
+		r2, r4 := 1, 3
+		own, enemy, K, k := byte('P'), byte('p'), byte('K'), byte('k')
+		if !white {
+			r2, r4 = 6, 4
+			own, enemy, K, k = 'p', 'P', 'k', 'K'
+		}
+		cells[sq(f, r2)] = own
+		cells[sq(f+df, r4)] = enemy
+		reserved := map[int]bool{sq(f, (r2+r4)/2): true, sq(f, r4): true}
+		free := func() int {
+			for {
+				s := sq(r.intn(8), r.intn(8))
+				if _, used := cells[s]; !used && !reserved[s] {
+					return s
+				}
+			}
+		}
+		cells[free()] = K
+		cells[free()] = k
+		for i := 0; i < r.intn(4); i++ {
+			c := "NBRnbrPp"[r.intn(8)]
+			s := free()
+			if (c|32) == 'p' && (s>>4 == 0 || s>>4 == 7) {
+				continue
+			}
+			cells[s] = c
+		}
+		side := "w"
+		if !white {
+			side = "b"
+		}
+		fen := fenFromMap(cells, side, "-", "-", 1+r.intn(40))
+		gen, err := engine.NewGeneratorFromFen(fen)
+		if err != nil {
+			continue
+		}
+		push := fmt.Sprintf("%c%d%c%d", 'a'+f, r2+1, 'a'+f, r4+1)
+		for _, m := range legalMoves(gen) {
+			if m.text == push {
+				return fen, push
+			}
+		}
+	}
+	return "", ""
 }
